@@ -94,12 +94,49 @@ def run_kani(harness_text, harnesses, features='all_msgs', jobs=16, timeout=3600
         tm = re.search(r'Verification Time: ([\d.]+)s', body)
         st = 'ok' if m.group(1) == 'SUCCESSFUL' else 'failed'
         fails = re.findall(r'(?m)^Failed Checks: (.*)$', body)
+        located = [{'desc': d, 'file': f, 'line': int(l)} for (d, f, l) in re.findall(r'(?m)^Failed Checks: (.*)\n\s*File: "([^"]+)", line (\d+)', body)]
         if st == 'failed' and fails and all('unwinding assertion' in f for f in fails):
             st = 'tool'
         covers = re.search(r'(\d+) of (\d+) cover properties satisfied', body)
         res[name] = {'status': st, 'detail': body.strip()[-2500:], 'time_s': float(tm.group(1)) if tm else None,
-                     'failed_checks': fails, 'covers': (int(covers.group(1)), int(covers.group(2))) if covers else None}
+                     'failed_checks': fails, 'located': located, 'covers': (int(covers.group(1)), int(covers.group(2))) if covers else None}
     for h in harnesses:
         if h not in res:
-            res[h] = {'status': 'tool', 'detail': ('timeout after %ds\n' % timeout if timed_out else '') + out[-3000:], 'time_s': None, 'failed_checks': []}
+            res[h] = {'located': [], 'status': 'tool', 'detail': ('timeout after %ds\n' % timeout if timed_out else '') + out[-3000:], 'time_s': None, 'failed_checks': []}
     return {'results': res, 'wall_s': wall, 'cmd': ' '.join(cmd).replace(common.scratch(), '<scratch>'), 'raw_tail': out[-4000:], 'timed_out': timed_out}
+
+
+def failed_clauses(harness_text, result, hpath_hint='harness_'):
+    """Map Kani's failed checks to the clause names written as trailing `// clause.name` comments on the assert lines of the
+    harness.  Checks that fail outside the harness file (overflow/panic inside the crate) are returned under '#panic'."""
+    lines = harness_text.split('\n')
+    out = set()
+    for d in result.get('failed_checks', []):
+        m = re.match(r'^"?([a-z][\w]*\.[\w.]+)"?$', d.strip())      # assert!(cond, "clause.name")
+        if m:
+            out.add(m.group(1))
+    if out:
+        if any(hpath_hint not in loc['file'] for loc in result.get('located', [])):
+            out.add('#panic')
+        return out
+    for loc in result.get('located', []):
+        if hpath_hint in loc['file']:
+            ln = loc['line']
+            if 1 <= ln <= len(lines):
+                m = re.search(r'//\s*([A-Za-z_][\w.]*)', lines[ln - 1])
+                if m:
+                    out.add(m.group(1))
+                    continue
+            out.add('#unmapped')
+        else:
+            out.add('#panic')
+    return out
+
+
+def concrete_playback(harness_text, harness, features='all_msgs', tag='cp', timeout=900):
+    """Re-run one failing harness with concrete playback to obtain the counterexample values (best effort)."""
+    out = run_kani(harness_text, [harness], features=features, jobs=1, timeout=timeout, tag=tag,
+                   extra=['-Z', 'concrete-playback', '--concrete-playback=print'])
+    raw = out.get('raw_tail', '')
+    m = re.search(r'(?s)Concrete playback unit test for.*?```\n(.*?)```', raw)
+    return m.group(1)[:3000] if m else None
